@@ -4,6 +4,10 @@
 rule (substring of an obligation key) in its output. Behaviour-preserving refactors
 ("silent": true) must leave the check at exit 0.
 
+Every item is analysed once for all properties (`dcverif check ALL`: one load of the scratch tree) and the per-property
+outcome is cached under $TMPDIR keyed by analyzer binary, known findings, /repo's tree and the item, so the thorough tier
+of the second property does not repeat the work of the first. The cache is only an accelerator: delete it at will.
+
 usage: run.py [--prop Cxx] [--only id] [--jobs N] [--repo /repo] [--keep]
 Exit 0 = all mutants detected and all refactors silent; exit 2 = the checker is broken
 (a mutant escaped or a refactor alarmed). Never prints VIOLATION lines against /repo.
@@ -67,37 +71,101 @@ def apply_edits(root, edits):
     return None
 
 
-def run_one(m, repo, keep):
+def tree_key(repo):
+    """Identifies the analyzer binary, the known-findings file and the working tree the results were computed for."""
+    import hashlib
+    h = hashlib.sha256()
+    for f in (BIN, os.path.join(VERIF, "known_findings.json")):
+        h.update(open(f, "rb").read())
+    for root, dirs, files in os.walk(repo):
+        dirs[:] = sorted(d for d in dirs if d != ".git")
+        for fn in sorted(files):
+            fp = os.path.join(root, fn)
+            h.update(os.path.relpath(fp, repo).encode())
+            try:
+                h.update(open(fp, "rb").read())
+            except OSError:
+                pass
+    return h.hexdigest()[:24]
+
+
+def item_key(m):
+    import hashlib
+    h = hashlib.sha256(m["id"].encode())
+    if "patch" in m:
+        h.update(open(m["patch"], "rb").read())
+    else:
+        h.update(json.dumps(m["edits"], sort_keys=True).encode())
+    return h.hexdigest()[:16]
+
+
+def run_item_all(m, repo, keep, cache_dir):
+    """One scratch copy and ONE load of it answers every property's check (`dcverif check ALL`): what `check Cxx` would
+    print and return on that tree, per property. Results are cached per (analyzer, known findings, tree, item): the
+    thorough tier of the next property asks the same questions of the same scratch trees."""
+    cf = os.path.join(cache_dir, item_key(m) + ".json")
+    if os.path.exists(cf):
+        try:
+            return json.load(open(cf))
+        except Exception:
+            pass
     tmp = tempfile.mkdtemp(prefix="dcverif-mut-")
     try:
         dst = os.path.join(tmp, "repo")
         subprocess.run(["rsync", "-a", "--exclude", ".git", repo + "/", dst + "/"], check=True)
         err = apply_patch(dst, m["patch"]) if "patch" in m else apply_edits(dst, m["edits"])
         if err:
-            return dict(id=m["id"], result="skipped", why="anchor gone: " + err)
-        out = os.path.join(tmp, "out")
-        os.makedirs(out)
-        env = dict(os.environ, GOFLAGS="-mod=mod", GOPROXY="off", GOSUMDB="off", GOTOOLCHAIN="local")
-        env.pop("GOWORK", None)
-        p = subprocess.run([BIN, "check", m.get("_prop", m["property"]), "--repo", dst, "--out", out, "--known", os.path.join(VERIF, "known_findings.json")],
-                           capture_output=True, text=True, env=env)
-        txt = p.stdout + p.stderr
-        if p.returncode == 2:
-            return dict(id=m["id"], result="broken", why="analyzer exit 2 (mutant does not type-check or analyzer failed): " + txt[-600:])
-        if m.get("silent"):
-            if p.returncode == 0:
-                return dict(id=m["id"], result="ok", why="refactor stayed silent")
-            return dict(id=m["id"], result="FALSE-ALARM", why=txt[-1500:])
-        if p.returncode != 1:
-            return dict(id=m["id"], result="ESCAPED", why="exit %d; expected a violation naming %s" % (p.returncode, m["expect"]))
-        exps = m["expect"] if isinstance(m["expect"], list) else [m["expect"]]
-        missing = [e for e in exps if e not in txt]
-        if missing:
-            return dict(id=m["id"], result="WRONG-REPORT", why="violation reported but not naming %s:\n%s" % (missing, txt[-1500:]))
-        return dict(id=m["id"], result="ok", why="detected")
+            res = dict(skipped="anchor gone: " + err)
+        else:
+            out = os.path.join(tmp, "out")
+            os.makedirs(out)
+            env = dict(os.environ, GOFLAGS="-mod=mod", GOPROXY="off", GOSUMDB="off", GOTOOLCHAIN="local")
+            env.pop("GOWORK", None)
+            p = subprocess.run([BIN, "check", "ALL", "--repo", dst, "--out", out, "--known", os.path.join(VERIF, "known_findings.json")],
+                               capture_output=True, text=True, env=env)
+            props, cur = {}, []
+            for line in p.stdout.splitlines():
+                if line.startswith("=== ") and " exit=" in line:
+                    name, code = line[4:].split(" exit=")
+                    props[name] = dict(exit=int(code), text="\n".join(cur)[-4000:])
+                    cur = []
+                else:
+                    cur.append(line)
+            res = dict(props=props, rc=p.returncode, stderr=p.stderr[-1500:])
+        os.makedirs(cache_dir, exist_ok=True)
+        tmpf = cf + ".%d.tmp" % os.getpid()
+        json.dump(res, open(tmpf, "w"))
+        os.replace(tmpf, cf)
+        return res
     finally:
         if not keep:
             shutil.rmtree(tmp, ignore_errors=True)
+
+
+def judge(m, res):
+    prop = m.get("_prop", m["property"])
+    if "skipped" in res:
+        return dict(id=m["id"], result="skipped", why=res["skipped"])
+    pr = res.get("props", {}).get(prop)
+    if pr is None or pr["exit"] == 2:
+        why = (pr or {}).get("text", "") + res.get("stderr", "")
+        return dict(id=m["id"], result="broken", why="analyzer exit 2 (mutant does not type-check or analyzer failed): " + why[-600:])
+    txt, rc = pr["text"], pr["exit"]
+    if m.get("silent"):
+        if rc == 0:
+            return dict(id=m["id"], result="ok", why="refactor stayed silent")
+        return dict(id=m["id"], result="FALSE-ALARM", why=txt[-1500:])
+    if rc != 1:
+        return dict(id=m["id"], result="ESCAPED", why="exit %d; expected a violation naming %s" % (rc, m["expect"]))
+    exps = m["expect"] if isinstance(m["expect"], list) else [m["expect"]]
+    missing = [e for e in exps if e not in txt]
+    if missing:
+        return dict(id=m["id"], result="WRONG-REPORT", why="violation reported but not naming %s:\n%s" % (missing, txt[-1500:]))
+    return dict(id=m["id"], result="ok", why="detected")
+
+
+def run_one(m, repo, keep, cache_dir):
+    return judge(m, run_item_all(m, repo, keep, cache_dir))
 
 
 def main():
@@ -122,8 +190,9 @@ def main():
     if not ms:
         print("no mutants selected")
         return 0
+    cache_dir = os.path.join(os.environ.get("TMPDIR", "/tmp"), "dcverif-selftest-cache-" + tree_key(a.repo))
     with ThreadPoolExecutor(max_workers=a.jobs) as ex:
-        res = list(ex.map(lambda m: run_one(m, a.repo, a.keep), ms))
+        res = list(ex.map(lambda m: run_one(m, a.repo, a.keep, cache_dir), ms))
     bad = 0
     for r in res:
         tag = r["result"]
